@@ -67,6 +67,18 @@ def stmt_ops(s):
     """-> list of ops (dir, datavar, shift, pos, node) contributed by statement s, or [] if not a byte-op statement."""
     e = A.strip(s)
     k = e.get("kind")
+    # the same assembly written as a returned expression or as an initialiser
+    if k == "ReturnStmt" and A.kids(e):
+        terms = _or_terms(A.kids(e)[0])
+        if len(terms) >= 2 and all(_load_term(t) is not None for t in terms):
+            return [("load", "<returned value>", _load_term(t)[0], _load_term(t)[1], s) for t in terms]
+        return []
+    if k == "DeclStmt" and len(A.kids(e)) == 1 and A.kids(e)[0].get("kind") == "VarDecl" and A.kids(A.kids(e)[0]):
+        d = A.kids(e)[0]
+        terms = _or_terms(A.kids(d)[-1])
+        if len(terms) >= 2 and all(_load_term(t) is not None for t in terms):
+            return [("load", d.get("name"), _load_term(t)[0], _load_term(t)[1], s) for t in terms]
+        return []
     if k == "CompoundAssignOperator" and e.get("opcode") == "|=":
         lhs, rhs = A.kids(e)
         ops = []
@@ -188,7 +200,10 @@ TEST_BYTES = (0x01, 0x7f, 0x80, 0xff)
 def _dest_bits(run):
     """(bits, signed) of the data variable of a load run, from the type of the assigned lvalue"""
     s = A.strip(run[0][4])
-    lhs = A.kids(s)[0]
+    if s.get("kind") == "DeclStmt":
+        lhs = A.kids(s)[0]
+    else:
+        lhs = A.kids(s)[0]            # assigned lvalue, or the returned expression
     ct = FD.ctype(A.qtype(lhs))
     if ct[0] == "int":
         return ct[1], ct[2]
@@ -217,7 +232,7 @@ def eval_load_run(run):
     patterns.append(list(range(0x81, 0x81 + n)))
     bad = []
     s0 = A.strip(stmts[0])
-    lhs = A.kids(s0)[0]
+    lhs = A.kids(s0)[0] if s0.get("kind") not in ("ReturnStmt", "DeclStmt") else None
     for p in patterns:
         feed = list(p)
         explicit = all(isinstance(o[3], int) for o in run)
@@ -240,11 +255,22 @@ def eval_load_run(run):
                 b = p[k]
             return FD.wrap(b, ct) if ct[0] == "int" else b
         ev = FD.Eval(node_hook=hook)
-        key, _ = ev._lv(lhs)
-        ev.env[key] = 0
-        for st in stmts:
-            ev.run(st)
-        got = ev.env[key]
+        if s0.get("kind") == "ReturnStmt":
+            try:
+                ev.run(s0)
+                raise FD.Unknown("return statement did not return", s0)
+            except FD._Return as rr:
+                got = rr.v
+        elif s0.get("kind") == "DeclStmt":
+            for st in stmts:
+                ev.run(st)
+            got = ev.env[A.kids(s0)[0]["id"]]
+        else:
+            key, _ = ev._lv(lhs)
+            ev.env[key] = 0
+            for st in stmts:
+                ev.run(st)
+            got = ev.env[key]
         exp = 0
         for b in p:
             exp = (exp << 8) | b
